@@ -29,6 +29,7 @@ type desc struct {
 	Real, Stubs, Assume       []string
 	QuickSecs, ThoroughSecs   int
 	RunsPerJob                int
+	HangSecs                  int
 }
 
 type violationRec struct {
@@ -166,14 +167,15 @@ func loadFindings() []finding {
 }
 
 type checker struct {
-	prop     string
-	tier     string
-	seed     uint64
-	b        *builder
-	d        desc
-	known    string // comma separated open keys
-	tmp      string
-	infraErr []string
+	replayTimeout time.Duration
+	prop          string
+	tier          string
+	seed          uint64
+	b             *builder
+	d             desc
+	known         string // comma separated open keys
+	tmp           string
+	infraErr      []string
 }
 
 func (c *checker) infra(format string, a ...any) {
@@ -200,7 +202,11 @@ func (c *checker) replayProgram(node string, p *sim.Program, log bool) (ro *repl
 	if p.Cfg != nil && p.Cfg["gomaxprocs"] > 0 {
 		gmp = int(p.Cfg["gomaxprocs"])
 	}
-	out, werr := c.b.runWorker(node, env, gmp, 10*time.Minute)
+	rt := 10 * time.Minute
+	if c.replayTimeout > 0 {
+		rt = c.replayTimeout
+	}
+	out, werr := c.b.runWorker(node, env, gmp, rt)
 	b, rerr := os.ReadFile(f + ".out")
 	if rerr != nil {
 		if werr != nil && strings.Contains(werr.Error(), "watchdog") {
@@ -265,7 +271,18 @@ func crashDetail(out string) string {
 
 // confirm re-executes a candidate in a fresh process; returns the violation observed there (nil if none).
 func (c *checker) confirm(node string, p *sim.Program) (*sim.Violation, error) {
+	if c.d.HangSecs > 0 {
+		c.replayTimeout = time.Duration(c.d.HangSecs) * time.Second
+		defer func() { c.replayTimeout = 0 }()
+	}
 	ro, died, out, err := c.replayProgram(node, p, false)
+	if err != nil && c.d.HangSecs > 0 && strings.Contains(err.Error(), "watchdog") {
+		// the run alone exceeds the per-run budget: execute it a second time before it is called a hang
+		if _, _, _, err2 := c.replayProgram(node, p, false); err2 != nil && strings.Contains(err2.Error(), "watchdog") {
+			return &sim.Violation{Class: "hang", Op: -1, Detail: fmt.Sprintf("the run did not terminate within %d s in two separate executions (a call that consumes hostile bytes does not return)", c.d.HangSecs)}, nil
+		}
+		return nil, fmt.Errorf("a run exceeded its time budget once but not twice")
+	}
 	if err != nil {
 		return nil, err
 	}
@@ -540,6 +557,7 @@ func check(prop, tier string) int {
 		out  string
 		wal  *violationRec
 		err  error
+		hang bool
 	}
 	results := make(chan jobDone, nworkers*2)
 	var wg sync.WaitGroup
@@ -552,7 +570,11 @@ func check(prop, tier string) int {
 					"VERIF_FROM=" + strconv.FormatUint(j.from, 10), "VERIF_TO=" + strconv.FormatUint(j.to, 10),
 					"VERIF_OUT=" + j.out, "VERIF_WAL=" + j.out + ".wal", "VERIF_TIER=" + tier, "VERIF_KNOWN=" + c.known,
 					"VERIF_SAMPLES=1", "VERIF_DEADLINE=" + strconv.FormatInt(hardDeadline.UnixNano(), 10)}
-				out, werr := c.b.runWorker(j.node, env, 1, time.Until(hardDeadline)+5*time.Minute)
+				jobTimeout := time.Until(hardDeadline) + 5*time.Minute
+				if c.d.HangSecs > 0 {
+					jobTimeout = time.Duration(3*c.d.HangSecs) * time.Second
+				}
+				out, werr := c.b.runWorker(j.node, env, 1, jobTimeout)
 				jd := jobDone{j: j, out: out}
 				sb, rerr := os.ReadFile(j.out + ".json")
 				if rerr == nil {
@@ -562,8 +584,12 @@ func check(prop, tier string) int {
 					}
 				}
 				if werr != nil || rerr != nil {
-					if werr != nil && strings.Contains(werr.Error(), "watchdog") {
+					if werr != nil && strings.Contains(werr.Error(), "watchdog") && c.d.HangSecs == 0 {
 						jd.err = werr
+					} else if werr != nil && strings.Contains(werr.Error(), "watchdog") {
+						jd.died = true
+						jd.hang = true
+						jd.wal = c.readWAL(j.node, j.out+".wal")
 					} else {
 						jd.died = true
 						jd.wal = c.readWAL(j.node, j.out+".wal")
@@ -604,9 +630,12 @@ func check(prop, tier string) int {
 				if strings.Contains(jd.out, "DATA RACE") {
 					cls = "data-race"
 				}
+				if jd.hang {
+					cls = "hang"
+				}
 				candidates = append(candidates, reported{node: j.node, idx: jd.wal.Idx, p: jd.wal.Program, v: &sim.Violation{Class: cls, Op: -1, Detail: crashDetail(jd.out)}})
 				// continue the rest of the chunk in a new worker (its results are not cross-compared)
-				if jd.wal.Idx+1 < j.to && len(candidates) < 50 {
+				if jd.wal.Idx+1 < j.to && len(candidates) < 50 && !jd.hang {
 					requeue = append(requeue, job{node: j.node, chunk: -1, from: jd.wal.Idx + 1, to: j.to, out: j.out + "r"})
 				}
 			} else {
@@ -765,7 +794,9 @@ func check(prop, tier string) int {
 		}
 		seenClass[key]++
 		cand.v = v
-		cand.p, cand.v = c.shrink(cand.node, cand.p, v)
+		if v.Class != "hang" {
+			cand.p, cand.v = c.shrink(cand.node, cand.p, v)
+		}
 		violations = append(violations, cand)
 	}
 
@@ -923,7 +954,15 @@ func replayCmd(path string) int {
 	if rf.Node2 != "" {
 		v, err = c.confirmCross(rf.Node, rf.Node2, rf.Program)
 	} else {
+		if rf.Expect != nil && rf.Expect.Class == "hang" {
+			c.replayTimeout = 90 * time.Second
+		}
 		ro, died, out, e := c.replayProgram(rf.Node, rf.Program, true)
+		if e != nil && c.replayTimeout > 0 && strings.Contains(e.Error(), "watchdog") {
+			fmt.Printf("violation: hang: the run does not terminate within %v\n", c.replayTimeout)
+			fmt.Printf("VIOLATION property=%s replay=%s\n", rf.Property, path)
+			return 1
+		}
 		err = e
 		if err == nil {
 			if died {
